@@ -5,7 +5,7 @@ CONSTANTS
   AuthFirst = TRUE
   GroupAuthz = TRUE
   Callers = {"alice", "bob"}
-  DeepReload = TRUE
+  DeepReload = FALSE
   Canon = TRUE
   LenSet = {0, 1}
   PolicyClients = {"alice"}
